@@ -17,6 +17,7 @@ def run(rep, tier):
         rep.call(row_coverage.group_tail, rep, prog, "C02.kernel-rows")
         rep.call(loadwidth.guard_adequacy, rep, prog, "C02.loadwidth", loadwidth.FLOOR.get(cfg, 50))
         rep.call(loadwidth.offset_flows, rep, prog, "C02.offset-flows", {"x86": 30, "x86-rayon": 30, "arm": 8, "arm-rayon": 8, "wasm": 15}.get(cfg, 8))
+        rep.call(loadwidth.cursor_advance, rep, prog, "C02.cursor-advance", {"x86": 16, "x86-rayon": 16, "wasm": 4}.get(cfg, 0))
         rep.call(simd_rules.f64_accumulate, rep, prog, "C02.f64-accumulate", {"x86": 100, "x86-rayon": 100}.get(cfg, 8))
         rep.call(roundbudget.budget, rep, prog, "C02.round-budget", {"x86": 110, "arm": 60, "wasm": 55}.get(cfg, 40))
         # alpha multiplication/division: the SIMD primitives against the portable routines
